@@ -1,5 +1,5 @@
 From Coq Require Import Extraction ExtrOcamlBasic.
-From IV Require Import Base.Bytes Model.Pop3Wire Model.Pop3 Model.Pop3Net.
+From IV Require Import Base.Bytes Model.Pop3Wire Model.Pop3 Model.Pop3Net Model.Pop3Tls.
 Extraction Language OCaml.
 Extraction "c13_model.ml" conv_anchor deliver expand run init_world oracle dump_box parse_line
-  pop3_send pop3_send_top pop3_client_decode scan_lines crlf_join top_spec run_bytes feed frev wstep get_box remove_msg run_stream read_lines run_net.
+  pop3_send pop3_send_top pop3_client_decode scan_lines crlf_join top_spec run_bytes feed frev wstep get_box remove_msg run_stream read_lines run_net tsessions.
